@@ -49,7 +49,9 @@ NAMES = ["a", "a - b", "c", "d", "a-b"]
 # remove() arguments: the five model keys first, then the cross pairs, then a pair nobody has
 MODEL_KEYS = [("ns1", "a"), ("ns1", "a - b"), ("ns2", "a"), ("ns3", "c"), ("ns4", "d"), ("ns3/", "a-b")]
 CROSS_KEYS = [(ns, nm) for ns in NAMESPACES for nm in NAMES if (ns, nm) not in MODEL_KEYS]
-REMOVE_KEYS = MODEL_KEYS + CROSS_KEYS + [("nsX", "x")]
+# keys that differ from a stored model's only in letter case: other keys (namespaces and names are compared as given)
+CASE_KEYS = [("NS1", "a"), ("ns1", "A"), ("NS3/", "a-b")]
+REMOVE_KEYS = MODEL_KEYS + CROSS_KEYS + CASE_KEYS + [("nsX", "x")]
 EVAL_NAMES = NAMES + ["x", "a -b"]      # "a -b": a third spelling of the same FEEL name, which no model has
 
 
